@@ -12,8 +12,8 @@ REPO = os.environ.get('VERIF_REPO', '/repo')
 class Job:
     def __init__(self, id, fn, level='Pbox', functions=(), extra=None, tiers=('quick', 'thorough'), num=True,
                  numdim=4, timeout=600, maxpaths=512, rtol=1e-6, atol=1e-8, nnum=None, assumptions=(), setup=None,
-                 rlimit=None, allow_exc=False):
-        self.allow_exc = allow_exc
+                 rlimit=None, allow_exc=False, pre=None):
+        self.allow_exc = allow_exc; self.pre = pre
         self.id = id; self.fn = fn; self.level = level; self.functions = list(functions)
         self.extra = extra; self.tiers = tiers; self.num = num; self.numdim = numdim
         self.timeout = timeout; self.maxpaths = maxpaths; self.rtol = rtol; self.atol = atol
@@ -68,13 +68,14 @@ def run_job(args):
         out['assumptions'] = list(job.assumptions)
         signal.signal(signal.SIGALRM, _alarm); signal.alarm(int(job.timeout))
         nnum = job.nnum if job.nnum is not None else (12 if tier == 'quick' else 100)
+        pre_obj = job.pre() if job.pre else None          # built natively, before any dependency is rebound
         # ---------------- symbolic phase -------------------------------------------------------
         if job.level != 'B':
             shims.HIT.clear()
             shims.install(job.extra() if callable(job.extra) else job.extra)
             core.ST.defs.clear(); core.SQRT_OF.clear()
             if job.rlimit: core.ST.rlimit = job.rlimit
-            c = Ctx('sym')
+            c = Ctx('sym'); c.pre = pre_obj
             def run():
                 c.begin_path(); shims.RNG_LOG.clear()
                 if job.setup: job.setup(c)
@@ -125,7 +126,7 @@ def run_job(args):
         # ---------------- numeric twin: replay of refutations + generated inputs --------------
         if job.num:
             def native(inputs, rng):
-                c = Ctx('num', inputs=inputs, rng=rng, rtol=job.rtol, atol=job.atol, numdim=job.numdim)
+                c = Ctx('num', inputs=inputs, rng=rng, rtol=job.rtol, atol=job.atol, numdim=job.numdim); c.pre = pre_obj
                 for _ in range(50):
                     c.begin_path()
                     try:
@@ -244,6 +245,7 @@ def replay(prop, path, tier, seed):
     if job is None:
         print(f"replay: job {rp['job']} not found"); return 3
     c = Ctx('num', inputs=rp.get('inputs') or {}, rng=np.random.default_rng(seed), rtol=job.rtol, atol=job.atol, numdim=job.numdim)
+    c.pre = job.pre() if job.pre else None
     c.begin_path(); err = None
     try:
         if job.setup: job.setup(c)
